@@ -507,6 +507,17 @@ def k3(rep, src, T):
             r, _ = chain_root(i["args"][0])
             if path_of(strip_wrappers(r)) == ps[0] and genv.init_of(nm) is not None:
                 col = nm
+    # the bounds are used as received: re-binding `min` / `max` (e.g. filtering out some values) before the `if let` drops thresholds
+    from .core import pat_binds as _pb, walk_guards as _wg
+
+    for st in g.body["stmts"]:
+        if st["k"] == "let":
+            for nm in _pb(st["pat"]):
+                if nm in (ps[1], ps[2]):
+                    rep.violation("K3", "Expr::filter_column@%s/rebound" % nm, "the `%s` bound is re-bound before use (`let %s = %s`): some thresholds are silently dropped" % (nm, show(st["pat"], 40), show(st.get("init"), 100)), "src/%s:%d" % (g.file, st["l"]))
+    for n, guards in _wg(g.body):
+        if n["k"] == "if" and n["cond"]["k"] == "letcond" and path_of(strip_wrappers(n["cond"]["e"])) in (ps[1], ps[2]) and any(gd[0] in ("if", "arm") for gd in guards):
+            rep.violation("K3", "Expr::filter_column@%s/conditional" % path_of(strip_wrappers(n["cond"]["e"])), "the bound is only applied under another condition", "src/%s:%d" % (g.file, n["l"]))
     want = {1: "gt", 2: "lt"}
     for idx in (1, 2):
         blocks = [n for n in walk(g.body) if n["k"] == "if" and n["cond"]["k"] == "letcond" and path_of(strip_wrappers(n["cond"]["e"])) == ps[idx]]
